@@ -168,6 +168,14 @@ pub fn order(cx: &mut Ctx) {
                 _ => cx.rng.pick(&elems).clone(),
             })
             .collect();
+        // every fifth list: whole numbers beyond 2^53 and around 2^63 that a double cannot tell apart
+        let l: Vec<V> = if cx.rng.below(5) == 0 {
+            let near: [V; 10] = [V::Int((1 << 53) + 1), V::Int(1 << 53), V::Int((1 << 53) + 2), V::Uint((1 << 53) + 1), V::Dbl(9007199254740992.0),
+                                 V::Int(i64::MAX), V::Int(i64::MAX - 1), V::Uint(1 << 63), V::Uint((1 << 63) + 1), V::Uint(u64::MAX - 1)];
+            (0..(2 + cx.rng.below(4))).map(|_| cx.rng.pick(&near).clone()).collect()
+        } else {
+            l
+        };
         let mut c = cx.case(mcall(id("l"), "sort", vec![]));
         c.bind.insert("l".into(), V::List(l.clone()));
         c.forms = forms(&["bound", "lit"]);
@@ -223,8 +231,11 @@ pub enum Cls {
     FStrErr, // an f-string whose segment fails
     MapKey, // a map literal whose key is not a string (built at run time)
     MethodRef, // a method selected but not called
+    NoSuchArg, // a call whose argument calls a name that is not callable
+    NoSuchProg, // a stored program that calls a name that is not callable
+    NoSuchBody, // a macro whose body calls a name that is not callable
 }
-pub const CLASSES: &[Cls] = &[Cls::T, Cls::F, Cls::Truthy, Cls::Falsy, Cls::ErrO, Cls::ErrA, Cls::HardArg, Cls::ProgErr, Cls::ProgT, Cls::FStrErr, Cls::MapKey, Cls::MethodRef];
+pub const CLASSES: &[Cls] = &[Cls::T, Cls::F, Cls::Truthy, Cls::Falsy, Cls::ErrO, Cls::ErrA, Cls::HardArg, Cls::ProgErr, Cls::ProgT, Cls::FStrErr, Cls::MapKey, Cls::MethodRef, Cls::NoSuchArg, Cls::NoSuchProg, Cls::NoSuchBody];
 
 fn cls_value(c: Cls, r: &mut Rng) -> Option<V> {
     Some(match c {
@@ -328,7 +339,9 @@ fn logic_case(cx: &mut Ctx, shape: &T, classes: &[Cls], as_calls: bool) {
     if as_calls {
         let t = fill_atoms(shape, &|k| match classes[k - 1] {
             Cls::HardArg => call(&format!("c{}", k), vec![bin("/", lit(V::Int(1)), id("zero"))]),
-            Cls::ProgErr | Cls::ProgT => id(&format!("p{}", k)),
+            Cls::ProgErr | Cls::ProgT | Cls::NoSuchProg => id(&format!("p{}", k)),
+            Cls::NoSuchArg => call(&format!("c{}", k), vec![call("nosuchfn", vec![lit(V::Int(1))])]),
+            Cls::NoSuchBody => mcall(T::List(vec![lit(V::Int(1))]), "exists", vec![id("e"), call("nosuchfn", vec![id("e")])]),
             Cls::FStrErr => T::FStr(vec![Seg::Lit("x".into()), Seg::Expr(call(&format!("c{}", k), vec![]))]),
             Cls::MapKey => T::Map(vec![(call(&format!("c{}", k), vec![]), lit(V::Int(1)))]),
             Cls::MethodRef => sel(call(&format!("c{}", k), vec![]), "size"),
@@ -344,13 +357,16 @@ fn logic_case(cx: &mut Ctx, shape: &T, classes: &[Cls], as_calls: bool) {
                 Cls::ProgT => {
                     c.progs.insert(format!("p{}", i + 1), call(&format!("c{}", i + 1), vec![]));
                 }
+                Cls::NoSuchProg => {
+                    c.progs.insert(format!("p{}", i + 1), call("nosuchfn", vec![lit(V::Int(1))]));
+                }
                 _ => {}
             }
             let spec = match cl {
                 Cls::FStrErr => serde_json::json!({"o":"err","c": if rng.chance(1, 2) {"absent"} else {"other"}}),
                 Cls::MapKey => serde_json::json!({"o":"ok","v":V::Int(1).to_json()}),
                 Cls::MethodRef => serde_json::json!({"o":"ok","v":V::List(vec![V::Int(1)]).to_json()}),
-                _ => match cls_value(if matches!(cl, Cls::HardArg | Cls::ProgErr | Cls::ProgT) { Cls::Truthy } else { *cl }, &mut rng) {
+                _ => match cls_value(if matches!(cl, Cls::HardArg | Cls::ProgErr | Cls::ProgT | Cls::NoSuchArg | Cls::NoSuchProg | Cls::NoSuchBody) { Cls::Truthy } else { *cl }, &mut rng) {
                     Some(v) => serde_json::json!({"o":"ok","v":v.to_json()}),
                     None => serde_json::json!({"o":"err","c": if *cl == Cls::ErrA {"absent"} else {"other"}}),
                 },
@@ -365,6 +381,8 @@ fn logic_case(cx: &mut Ctx, shape: &T, classes: &[Cls], as_calls: bool) {
         let t = fill_atoms(shape, &|k| match classes[k - 1] {
             Cls::ErrO | Cls::ProgErr => bin("/", id(&format!("v{}", k)), lit(V::Int(0))),
             Cls::HardArg => call("size", vec![id(&format!("v{}", k))]),
+            Cls::NoSuchArg | Cls::NoSuchProg => call("size", vec![call("nosuchfn", vec![id(&format!("v{}", k))])]),
+            Cls::NoSuchBody => mcall(T::List(vec![id(&format!("v{}", k))]), "all", vec![id("e"), call("nosuchfn", vec![id("e")])]),
             Cls::FStrErr => T::FStr(vec![Seg::Lit("x".into()), Seg::Expr(bin("/", id(&format!("v{}", k)), lit(V::Int(0))))]),
             Cls::MapKey => T::Map(vec![(id(&format!("v{}", k)), lit(V::Int(1)))]),
             Cls::MethodRef => sel(id(&format!("v{}", k)), "size"),
@@ -376,7 +394,7 @@ fn logic_case(cx: &mut Ctx, shape: &T, classes: &[Cls], as_calls: bool) {
                 (_, Some(v)) => {
                     c.bind.insert(format!("v{}", i + 1), v.clone());
                 }
-                (Cls::ErrO, None) | (Cls::ProgErr, None) | (Cls::FStrErr, None) | (Cls::MapKey, None) => {
+                (Cls::ErrO, None) | (Cls::ProgErr, None) | (Cls::FStrErr, None) | (Cls::MapKey, None) | (Cls::NoSuchArg, None) | (Cls::NoSuchProg, None) | (Cls::NoSuchBody, None) => {
                     c.bind.insert(format!("v{}", i + 1), V::Int(1));
                 }
                 (Cls::MethodRef, None) => {
@@ -428,6 +446,33 @@ pub fn lazy(cx: &mut Ctx) {
         let cls: Vec<Cls> = (0..k).map(|_| *cx.rng.pick(CLASSES)).collect();
         let calls = cx.rng.chance(1, 2);
         logic_case(cx, &shape, &cls, calls);
+    }
+    // a parenthesised conditional as the first operand of || / && and as the condition of ?:, one clause a value that is
+    // not boolean and the other one ending in a relation, `in` or `!`: the operand still counts by its truthiness
+    for (ci, cond) in [V::Bool(true), V::Bool(false)].iter().enumerate() {
+        for nb in [V::Int(5), V::Int(0), V::Str("a".into()), V::List(vec![]), V::Null] {
+            for rel in [bin("==", id("x"), lit(V::Int(1))), bin("<", id("x"), lit(V::Int(1))), bin("in", id("x"), T::List(vec![lit(V::Int(1))])), un('!', 1, id("x"))] {
+                for swap in [false, true] {
+                    let inner = if swap { tern(id("c"), rel.clone(), id("n")) } else { tern(id("c"), id("n"), rel.clone()) };
+                    let p = T::Paren(Box::new(inner));
+                    for t in [
+                        bin("||", p.clone(), lit(V::Bool(false))),
+                        bin("&&", p.clone(), lit(V::Bool(true))),
+                        bin("||", p.clone(), id("nobody_bound_this")),
+                        bin("&&", p.clone(), id("nobody_bound_this")),
+                        tern(p.clone(), lit(V::Str("a".into())), lit(V::Str("b".into()))),
+                        un('!', 1, p.clone()),
+                    ] {
+                        let mut c = cx.case(t);
+                        c.bind.insert("c".into(), cond.clone());
+                        c.bind.insert("n".into(), nb.clone());
+                        c.bind.insert("x".into(), V::Int(ci as i64));
+                        c.forms = forms(&["bound"]);
+                        cx.out(c);
+                    }
+                }
+            }
+        }
     }
     // truthiness table: every value in every truthiness-consuming context
     let mut pool = boundary_pool();
@@ -952,6 +997,29 @@ pub fn macros(cx: &mut Ctx) {
                 let mut c = cx.case(t);
                 c.bind.insert("m".into(), m.clone());
                 c.forms = forms(&["bound", "lit", "json", "bound"]);
+                c.extra = serde_json::json!({"same": true});
+                cx.out(c);
+            }
+        }
+    }
+    // ... also when the body fails on two keys in different ways: the first failing key in the one fixed order decides,
+    // whatever the hash state of that map instance (observed directly and through coalesce / has)
+    for rep in 0..(if cx.thorough { 24 } else { 8 }) {
+        let keys: Vec<String> = (0..8).map(|i| format!("{}{}", ["k", "a", "zz", "é", "m", "b", "q", "w"][(i + rep) % 8], i)).collect();
+        let m = V::Map({
+            let mut kv: Vec<(String, V)> = keys.iter().enumerate().map(|(i, k)| (k.clone(), V::Int(i as i64))).collect();
+            kv.sort_by(|a, b| a.0.cmp(&b.0));
+            kv
+        });
+        let (ka, kb) = (keys[rep % 8].clone(), keys[(rep + 3) % 8].clone());
+        let body = tern(bin("==", id("k"), lit(V::Str(ka))), id("nobody_bound_this"), tern(bin("==", id("k"), lit(V::Str(kb))), bin("/", lit(V::Int(1)), id("zero")), lit(V::Bool(true))));
+        for mac in ["filter", "map"] {
+            let call_ = mcall(id("m"), mac, vec![id("k"), body.clone()]);
+            for t in [call_.clone(), call("coalesce", vec![call_.clone(), lit(V::Str("fallback".into()))]), call("has", vec![call_.clone()])] {
+                let mut c = cx.case(t);
+                c.bind.insert("m".into(), m.clone());
+                c.bind.insert("zero".into(), V::Int(0));
+                c.forms = forms(&["bound", "lit", "json", "bound", "bound"]);
                 c.extra = serde_json::json!({"same": true});
                 cx.out(c);
             }
@@ -1532,6 +1600,14 @@ pub const FUNC_NAMES: &[&str] = &[
 pub fn total(cx: &mut Ctx) {
     let mut pool = boundary_pool();
     pool.extend([V::Str("abc".into()), V::Str("héllo wörld".into()), V::Str("(".into()), V::Str("a*".into()), V::Str("UTC".into()), V::Str("US/Pacific".into()), V::Str("1h".into()), V::Str("2024-02-29T12:00:00Z".into()), V::Str("m".into()), V::Int(10), V::Int(-10), V::Int(64), V::Dbl(2.0), V::Dbl(-2.5), V::List(vec![V::Int(3), V::Int(1)]), V::List(vec![V::Str("a".into()), V::Int(1)])]);
+    // long values made of multi-byte characters, at four byte alignments: whatever renders, truncates or slices them
+    // (error messages included) meets a character boundary problem at some offset
+    for shift in 0..4usize {
+        let text = format!("{}{}", "a".repeat(shift), "é𝄞ł".repeat(30));
+        pool.push(V::Str(text.clone()));
+        pool.push(V::List(vec![V::Str(text.clone()), V::Str("Łódź".repeat(12))]));
+        pool.push(V::Map(vec![(text.clone(), V::List(vec![V::Str(text)]))]));
+    }
     let mut emit = |cx: &mut Ctx, t: T, binds: Vec<(String, V)>| {
         let mut c = cx.case(t);
         for (k, v) in binds {
